@@ -515,7 +515,24 @@ impl<'a> ProgGen<'a> {
                 None => String::new(),
             }
         };
-        self.emit(out, format!("FOR {} = {} TO {}{}", v, from, to, step_s));
+        // the bounds are converted to the counter's type: now and then a bound of a wider type whose conversion
+        // matters (a fraction that rounds, up or down or at the tie) or, with faults on, fails (out of the counter's range)
+        let mut from_s = from.to_string();
+        let mut to_s = to.to_string();
+        if self.opts.floats && t != Ty::Sgl && self.rng.chance(1, 4) {
+            self.feat("for-fractional-bound");
+            let frac = *self.rng.pick(&["4", "5", "6", "25", "75"]);
+            if self.rng.chance(2, 3) {
+                to_s = format!("{}.{}", to, frac);
+            } else {
+                from_s = format!("{}.{}", from, frac);
+            }
+        } else if self.opts.faults && t == Ty::Int && self.rng.chance(1, 40) {
+            self.feat("for-bound-out-of-range");
+            to_s = "40000".to_owned();
+            from_s = "39998".to_owned();
+        }
+        self.emit(out, format!("FOR {} = {} TO {}{}", v, from_s, to_s, step_s));
         self.counters_in_use.push(v.clone());
         let step_is_var = step.as_ref().map(|s| s.chars().next().map(|c| c.is_ascii_alphabetic()).unwrap_or(false)).unwrap_or(false);
         if let Some(s) = &step {
